@@ -13,7 +13,8 @@ for f in os.listdir(src):
         elif os.path.getsize(p) < 400000:
             shutil.copy(p, os.path.join(dst, f))
 res = ""
-for log in ("/tmp/cm/batch1.log", "/tmp/cm/batch2.log", "/tmp/cm/batch3.log", "/tmp/cm/batch4.log"):
+import glob
+for log in sorted(glob.glob("/tmp/cm/*.log")):
     if os.path.exists(log):
         for line in open(log):
             if line.startswith("RESULT %s %s " % (wt, m)):
